@@ -277,3 +277,33 @@ def run(ctx, report: Report) -> None:
     except ImportError:
         return
     selsyn_html.check(ctx, report, consts)
+
+    # ---- R6 ----------------------------------------------------------------------------------------------
+    r6 = report.rule('C17-R6', 'directionality and placeholder content follow the HTML Standard (decision tables of the matcher functions)',
+                     floor=100)
+    from .sem import dir_table
+    dir_table(ctx, r6)
+    from ..interp import Obj, Raised, call_function
+    from ..miniev import Unsupported
+    from ..tables import el_obj, matcher_obj
+    for desc_text, own_text, exp in (('', '', True), ('\n', '\n', True), ('typed', '', False), ('typed', 'typed', False),
+                                     ('\n\n', '\n\n', False), (' ', ' ', False)):
+        stubs = {'css_match._DocumentNav.get_text': lambda el, no_iframe=False, _t=desc_text: _t,
+                 'css_match._DocumentNav.get_own_text': lambda el, no_iframe=False, _t=own_text: ([_t] if _t else [])}
+        try:
+            got = bool(call_function(ctx, 'css_match.CSSMatch.match_placeholder_shown', [el_obj('textarea')], {}, stubs,
+                                     matcher_obj(is_xml=False, is_html=True)))
+        except Raised as e:
+            got = f'raises {e.exc_name}'
+        except Unsupported as e:
+            raise AnalysisError(f'match_placeholder_shown: outside the evaluable fragment: {e}')
+        r6.instance({'textarea_text_content': desc_text, 'own_text_nodes': own_text, 'placeholder_shown': got, 'expected': exp},
+                    key=f'ph|{desc_text!r}|{own_text!r}')
+        r6.obligation(got == exp)
+        if got != exp:
+            r6.violation(f'css_match.CSSMatch.match_placeholder_shown content {desc_text!r}/{own_text!r}',
+                         mmod.where(src.func('css_match.CSSMatch.match_placeholder_shown')[1]),
+                         f'match_placeholder_shown answers {got} for a control whose text content is {desc_text!r} (own text nodes '
+                         f'{own_text!r}); expected {exp}: the placeholder is shown only when the control has no content - the empty '
+                         f'string or a single newline - and content held in child nodes counts')
+
